@@ -1026,6 +1026,19 @@ def seen_flag_reset(ctx, cm):
             flags |= (seen_test_and_set(ctx, b, rt, cm) or set())
     if not flags:
         return False, "seen-flag vector not found"
+    # the flags are indexed by function id: one flag per function
+    for (fbid, fbb) in sorted(flags):
+        fbody = ctx.fb.bodies.get(fbid)
+        ft = fbody.blocks[fbb]["term"] if fbody is not None else None
+        if ft is None or ft.get("k") != "call" or len(ft["args"]) < 2:
+            continue
+        ne = strip_refs(expr_operand(fbody, ft["args"][1]))
+        calls_ = [c[1] for c in walk_expr(ne) if c.kind == "call"]
+        srcs_n = sources_of_expr(ctx, fbody, ne, mode="taint")
+        sized = any(c in NODE_COUNT_FNS or c.split("::")[-1] in ("len", "node_bound") for c in calls_) or \
+            any(s_.kind == "alloc" and s_[4] in NODE_COUNT_FNS for s_ in srcs_n)
+        if any(c.endswith("::edge_count") for c in calls_) or not sized:
+            return False, "the flag vector indexed by function id has `%s` entries, not one per function: indexing it panics or aliases" % fmt_expr(ne, fbody)[:60]
     fr = enum_frame(ctx, cm)
     if fr["body"].id != b.id:
         # the per-pair work is a private function: the enumeration (and the reset) live in its caller
@@ -2065,8 +2078,12 @@ def D2(ctx, rule="D2"):
             same_list = bool(srcl) and {(s[1], s[2]) for s in srcl if s.kind == "alloc" and not s[3]} == \
                 {(s[1], s[2]) for s in list_inner if s.kind == "alloc" and not s[3]} and \
                 any(s.kind == "alloc" and not s[3] for s in srcl)
-            ok_outer = idx_ok and a_ok and same_list and b_ok
-            why = "index from enumerate: %s, `from` is outer element: %s, same list: %s, `to` is inner element: %s" % (idx_ok, a_ok, same_list, b_ok)
+            # the index is the element's POSITION in the list: nothing reorders or narrows the list before enumerate() counts
+            below = names[names.index("std::iter::Iterator::enumerate") + 1:]
+            pos_ok = not [n_ for n_ in below if n_ == "std::iter::Iterator::rev" or n_ in SELECTIVE_ITER]
+            ok_outer = idx_ok and a_ok and same_list and b_ok and pos_ok
+            why = "index from enumerate: %s, `from` is outer element: %s, same list: %s, `to` is inner element: %s, enumerate counts list positions: %s" % (
+                idx_ok, a_ok, same_list, b_ok, pos_ok)
         elif [c for c in ochain if c[0] == "leaf:agg" and c[2][2] == "std::ops::Range"]:
             # `(0..list.len()).rev().for_each(|index| { let a = list[index]; list[index..].for_each(|b| ..) })`
             rl = [c for c in ochain if c[0] == "leaf:agg" and c[2][2] == "std::ops::Range"][0]
